@@ -919,7 +919,7 @@ theorem seg_connect_refused (g : Module → Module) (s02 : State)
       simp only [Bool.false_eq_true, if_false]
       refine ⟨fun hne => absurd hnil hne, fun _ => ?_⟩
       exact dynFull_of_none hs0 rd.uid m hm0 _ (fun x => (setAll_keeps cfg _ rd.h nm x).1) hid hcn' hu0 hnone
-  obtain ⟨Y, hY, hcases⟩ := Spec.segment_connect_cases_c06 cfg a rd evs am hget hal hb hc hcn hok
+  obtain ⟨Y, hY, hcases⟩ := Spec.segment_connect_cases_c06 cfg a rd evs am hget hal hb hc hcn hok (fun _ => hnil)
   -- the CLIENT_INFO frames (of the periodic section) describe the table as it was; the requester is not connected
   have hinfo : InfoTo (rdState cfg s rd) (· = rd.uid) (rdState cfg s rd) s2 := by
     have i0 : InfoTo (rdState cfg s rd) (· = rd.uid) (rdState cfg s rd) ((rdState cfg s rd).upd rd.uid g) := infoTo_same rfl
@@ -1095,6 +1095,7 @@ theorem seg_connect_accepted (nm : List Nat) (s02 : State) (G : Module → Modul
           unfold maxDyn at hk
           omega
   obtain ⟨Y, hY, hcases⟩ := Spec.segment_connect_cases_c06 cfg a rd evs am hget hal hb hc hcn hok
+    (fun hnone => by rw [hbufs, r1] at hnone; cases hnone)
   rw [hbufs] at hcases
   -- the end when the Spec makes no table update
   have noUpd : Spec.ackSends evs = [] →
